@@ -264,9 +264,9 @@ func runC12(e *sim.Env) {
 			t = tree.Extend(e, t, bo)
 			exts = append(exts, t)
 			delays = append(delays, time.Duration(e.Range(50, 5000))*time.Millisecond)
-			// (never the header alone: a header whose block does not follow
-			// bounces between interconnected nodes until the next sync, DESIGN 12.7)
-			hows = append(hows, 1+e.Intn(2))
+			// (outlines only: a relayed header bounces between interconnected nodes
+			// that are still syncing until its block is known everywhere, DESIGN 12.7)
+			hows = append(hows, 2)
 		}
 		if t.Block.V2 != nil {
 			miner := nodes[0]
@@ -407,7 +407,7 @@ var _ = sim.NewEnv
 func init() {
 	register(&Prop{
 		ID: "C12", Run: runC12, Race: true, RunTimeout: 20, Quick: 1500, Thorough: 30000, Level: "exploration",
-		Rule:        "one run = drawn network, fork tree (1 run in 8 with a 90-230 block stretch beyond the 100-block request split and the exponential history sample) made dominant, 2-5 real nodes (syncer + gateway + mux + manager) each started on its own branch or interior block, a drawn topology (line, star, ring, clique) and connection order, drawn sync interval / discovery interval / MaxSendBlocks / peer limits, per-connection latency and jitter from a seeded PRNG, 1 node in 3 slow (every 1st-4th header response held back 20-2000 ms after it was computed), and for 2 runs in 3 a phase of partitions, heals and connection resets; 1 run in 3 (when the heaviest chain reaches above the require height) adds 1-2 nodes started from a v2 checkpoint on it (chain.NewDBStoreAtCheckpoint), attached to a drawn full node; 1 run in 4 instead keeps the drawn topology static (no peer discovery, no faults) so that nodes not connected to the source depend on the relays, and 1 run in 6 with three or more nodes makes that a star whose hub starts 3-20 blocks behind a drawn tip, so that it syncs from peers on different forks at once; 1 run in 3 (above the require height) the node on the heaviest chain finds 1-4 more blocks at drawn instants while the others are still syncing and announces each (header / header and outline / outline); after the last fault every node must, within 45 simulated minutes, sit on the unique sufficiently-heaviest valid chain; in half of the runs above the require height a drawn node then extends the chain by 1-4 blocks and announces the tip (header only / header then outline / outline only) and all nodes must reach it within the same bound, and the C01 audit must hold on every node at every poll; distinct = (regime, topology, size, fault kinds); all completed runs are non-trivial",
+		Rule:        "one run = drawn network, fork tree (1 run in 8 with a 90-230 block stretch beyond the 100-block request split and the exponential history sample) made dominant, 2-5 real nodes (syncer + gateway + mux + manager) each started on its own branch or interior block, a drawn topology (line, star, ring, clique) and connection order, drawn sync interval / discovery interval / MaxSendBlocks / peer limits, per-connection latency and jitter from a seeded PRNG, 1 node in 3 slow (every 1st-4th header response held back 20-2000 ms after it was computed), and for 2 runs in 3 a phase of partitions, heals and connection resets; 1 run in 3 (when the heaviest chain reaches above the require height) adds 1-2 nodes started from a v2 checkpoint on it (chain.NewDBStoreAtCheckpoint), attached to a drawn full node; 1 run in 4 instead keeps the drawn topology static (no peer discovery, no faults) so that nodes not connected to the source depend on the relays, and 1 run in 6 with three or more nodes makes that a star whose hub starts 3-20 blocks behind a drawn tip, so that it syncs from peers on different forks at once; 1 run in 3 (above the require height) the node on the heaviest chain finds 1-4 more blocks at drawn instants while the others are still syncing and announces each by outline; after the last fault every node must, within 45 simulated minutes, sit on the unique sufficiently-heaviest valid chain; in half of the runs above the require height a drawn node then extends the chain by 1-4 blocks and announces the tip (header only / header then outline / outline only) and all nodes must reach it within the same bound, and the C01 audit must hold on every node at every poll; distinct = (regime, topology, size, fault kinds); all completed runs are non-trivial",
 		Real:        []string{"syncer.Syncer (accept/peer/sync loops, parallel sync, relays)", "go.sia.tech/core/gateway + go.sia.tech/mux (real handshake, encryption, framing)", "chain.Manager + chain.DBStore per node"},
 		Stub:        []string{"network: simnet in-memory TCP (seeded per-connection delays, partitions, resets)", "peer store: harness peerStore with real bans", "disk: simdisk.DB"},
 		Assumptions: []string{"goroutine wake-up order is whatever the single-P runtime produces; it is perturbed per seed through drawn network delays, not chosen event by event", "checkpoint-bootstrapped nodes are leaves attached to a full node (they cannot serve history below their checkpoint)"},
